@@ -129,6 +129,18 @@ def set_invariants(cfg, invs, constraint=None):
     return c
 
 
+ATTEMPTS = 3      # re-executions before an observation counts as not reproducible
+
+
+def unreproduced(ctx, where, what, obj):
+    """A property-level observation that does not show again when the behaviour is re-executed is evidence, not a
+    verdict and not an infrastructure failure: it is recorded (coverage.unreproduced), logged, and the exit code stays."""
+    vlib.log("  UNREPRODUCED [%s] %s" % (where, what))
+    lst = ctx.coverage.setdefault("unreproduced", [])
+    if len(lst) < 20:
+        lst.append({"where": where, "what": what, "behaviour": obj})
+
+
 class Family:
     """What differs between the ARP and the NDP pipeline."""
     pid = ""            # property id
@@ -233,9 +245,9 @@ def check_trace(ctx, fam, binary, trace_path, label, stats):
             seen_panic += 1
             _, recs = behaviour_at(lines, i + 1)
             script = script_of(recs)
-            again = confirm(ctx, fam, binary, script)
-            if "panic" not in again:
-                raise vlib.InfraError("panic at line %d of %s did not reproduce" % (i + 1, label))
+            if not any("panic" in confirm(ctx, fam, binary, script) for _ in range(ATTEMPTS)):
+                unreproduced(ctx, label, "panic at line %d: %s" % (i + 1, recs[-1].get("panic")), script)
+                continue
             ctx.report(fam.panic_key(recs[-1], recs), "handler panicked during a valid history: %s" % recs[-1].get("panic"),
                        {"family": fam.sub, "script": script, "failed": "panic"})
     res["panics"] = sum(1 for x in lines if '"panic"' in x)
@@ -267,9 +279,9 @@ def check_trace(ctx, fam, binary, trace_path, label, stats):
     for key, items in sorted(per_key.items()):
         for line, verdict, recs in items[:2]:
             script = script_of(recs)
-            again = confirm(ctx, fam, binary, script)
-            if not any(fam.key_of(v, recs) == key for v in again if v != "panic"):
-                raise vlib.InfraError("property-level failure %s at line %d of %s did not reproduce (%s)" % (verdict, line, label, again))
+            if not any(any(fam.key_of(v, recs) == key for v in confirm(ctx, fam, binary, script) if v != "panic") for _ in range(ATTEMPTS)):
+                unreproduced(ctx, label, "%s at line %d" % (verdict, line), script)
+                continue
             ctx.report(key, "real handler contradicts %s after step %s" % (verdict, json.dumps(script[-1])),
                        {"family": fam.sub, "script": script, "failed": verdict})
         stats.setdefault("failures_by_key", {})[key] = stats.get("failures_by_key", {}).get(key, 0) + len(items)
@@ -344,15 +356,19 @@ def replay(ctx, fam, path):
     return 0
 
 
-def run_realtime(ctx, binary, sub, variants, timeout=120):
-    """Several real-time scenarios in parallel processes; returns the trace paths."""
+def start_realtime(ctx, binary, sub, variants):
+    """Start real-time scenarios in parallel processes (they only sleep: start them early, collect them late)."""
     procs = []
     for v in variants:
-        tp = os.path.join(ctx.scratch, "rt-%s-%d.trace" % (sub, v))
+        tp = os.path.join(ctx.scratch, "rt-%s-%d-%d.trace" % (sub, v, len(os.listdir(ctx.scratch))))
         e = dict(os.environ)
         e.update({"VERIF_SEED": str(ctx.seed), "VERIF_TIER": ctx.tier})
         procs.append((v, tp, subprocess.Popen([binary, sub, "-realtime", str(v), "-out", tp], env=e,
                                               stdout=subprocess.PIPE, stderr=subprocess.PIPE, text=True)))
+    return procs
+
+
+def collect_realtime(procs, sub, timeout=180):
     out = []
     for v, tp, p in procs:
         try:
@@ -367,6 +383,11 @@ def run_realtime(ctx, binary, sub, variants, timeout=120):
             raise vlib.InfraError("real-time run %s/%d: %s" % (sub, v, st["infra"]))
         out.append((v, tp, st))
     return out
+
+
+def run_realtime(ctx, binary, sub, variants, timeout=180):
+    """Several real-time scenarios in parallel processes; returns the trace paths."""
+    return collect_realtime(start_realtime(ctx, binary, sub, variants), sub, timeout)
 
 
 # ---------------------------------------------------------------------------------------------
@@ -453,6 +474,23 @@ def stress_script(rng, macs, ips, behaviours, rounds, n):
     return out
 
 
+def gap_scripts():
+    """Directed histories: an API call lands in the gap between a loop's membership check and its action."""
+    out = []
+    for call in ({"a": "stop", "mac": "m1"}, {"a": "close"}, {"a": "start", "mac": "m1", "ip": "a2"}):
+        for n in (1, 2, 3):
+            h = [{"a": "start", "mac": "m%d" % k, "ip": "a%d" % k} for k in range(1, n + 1)]
+            h += [{"a": "check", "l": k} for k in range(1, n + 1)]
+            h += [call] + ([{"a": "stop", "mac": "m2"}] if n > 1 and call["a"] == "stop" else [])
+            h += [{"a": "act", "l": k} for k in range(1, n + 1)]
+            h += [{"a": "step", "k": k % n} for k in range(3 * n)] * 2       # tick, check, act of every loop, twice
+            out.append(h)
+    # Stop / Start / Stop around a check: two loops of one MAC, the older one past its check
+    out.append([{"a": "start", "mac": "m1", "ip": "a1"}, {"a": "check", "l": 1}, {"a": "stop", "mac": "m1"}, {"a": "start", "mac": "m1", "ip": "a1"},
+                {"a": "check", "l": 2}, {"a": "stop", "mac": "m1"}, {"a": "act", "l": 2}, {"a": "act", "l": 1}] + [{"a": "step", "k": k % 2} for k in range(12)])
+    return out
+
+
 def overlap_script():
     """Send-overlap stage: for every ordered pair of send paths of the ARP handler (loop announcement, restoring
     request, immediate spoof reply, probe reject) the first one's write is held inside the connection while the second
@@ -485,6 +523,9 @@ def run_c13(ctx):
     fam = ArpFamily()
     quick = ctx.quick
     binary = build(ctx)
+    # genuine 6 s ticker, both tiers: 2-4 hosts hunted, all stopped, every loop ends within one cycle of its own
+    # (10 s of sleeping in background processes while TLC works)
+    rt_early = start_realtime(ctx, binary, "arp", [100 + ctx.seed % 3] if quick else [100, 101, 102])
     rng = random.Random(ctx.seed)
     cov = ctx.coverage
     base = open(os.path.join(vlib.SPEC, "ArpHuntMC.cfg")).read()
@@ -545,6 +586,7 @@ def run_c13(ctx):
     # one concurrent-API stage: 16 overlapping StartHunt calls per round
     behaviours.append(("stress", stress_script(rng, ARP_MACS[:3], ["a1", "a2"], 10 if quick else 40, 30, 16)))
 
+    behaviours.append(("gap", gap_scripts()))
     # one send-overlap stage on a single P (sync.Pool then hands a returned buffer straight to the next sender)
     behaviours.append(("overlap", overlap_script() * (1 if quick else 4)))
     stats, runs, nbeh, total, samples, drift = {}, [], 0, 0, [], []
@@ -572,6 +614,12 @@ def run_c13(ctx):
         if res.get("drift"):
             drift.append({"source": label, "line": res.get("drift_line"), "at": res.get("drift_at")})
 
+    for v, tp, st in collect_realtime(rt_early, "arp"):
+        res = check_trace_rt(ctx, fam, binary, v, tp, "realtime-stopall-%d" % v, stats)
+        res.update(st)
+        runs.append(res)
+        nbeh += 1
+        total += res["lines"]
     require_reached(kinds, ["forged_announcement", "spoof_reply", "restore", "reject", "start_new", "start_again", "start_rejected",
                             "loop_ended_by_close"], "ARP")
     cov["reached"] = kinds
@@ -651,12 +699,17 @@ def check_trace_rt(ctx, fam, binary, variant, trace_path, label, stats):
     res["lines"] = n
     res["property_failures"] = len(fails)
     if fails:
-        again_tp = run_realtime(ctx, binary, fam.sub, [variant])[0][1]
-        again, _ = rt_failures(ctx, fam, again_tp, label + "-again")
-        keys2 = {k for k, _, _ in again}
+        keys2 = set()
+        for _ in range(ATTEMPTS):
+            again_tp = run_realtime(ctx, binary, fam.sub, [variant])[0][1]
+            again, _ = rt_failures(ctx, fam, again_tp, label + "-again")
+            keys2 |= {k for k, _, _ in again}
+            if all(key in keys2 for key, _, _ in fails):
+                break
         for key, what, recs in fails:
             if key not in keys2:
-                raise vlib.InfraError("real-time failure %s of %s did not reproduce" % (key, label))
+                unreproduced(ctx, label, "%s: %s" % (key, what), recs[-3:])
+                continue
             ctx.report(key, what, {"family": fam.sub + "-rt", "variant": variant, "trace": recs})
             stats.setdefault("failures_by_key", {})[key] = stats.get("failures_by_key", {}).get(key, 0) + 1
     return res
@@ -852,8 +905,16 @@ def ra_check(ctx, binary, vecs, tag, stats):
                 again = ra_run(ctx, binary, vecs, "confirm-all", shared=sh)[idx]
             else:
                 again = ra_run(ctx, binary, [v], "confirm", shared=sh)[0]
-            if not any(ra_key(v, f) == base for f, _ in ra_judge(v, again)):
-                raise vlib.InfraError("RA vector failure %s did not reproduce" % key)
+            ok_again = any(ra_key(v, f) == base for f, _ in ra_judge(v, again))
+            for _ in range(ATTEMPTS - 1):
+                if ok_again:
+                    break
+                again = (ra_run(ctx, binary, vecs, "confirm-all", shared=sh)[idx] if field == "table" and not v.get("many")
+                         else ra_run(ctx, binary, [v], "confirm", shared=sh)[0])
+                ok_again = any(ra_key(v, f) == base for f, _ in ra_judge(v, again))
+            if not ok_again:
+                unreproduced(ctx, "ra-" + tag, key, {"vector": {"h": v["h"]["id"], "opts": [o["id"] for o in v["opts"]]}, "field": field})
+                continue
             ids = [o["id"] for o in v["opts"]]
             ctx.report(key, "router record field %s after RA %s %s%s: %s (handler has %s, reference %s)" %
                        (field, v["h"]["id"], ids, " with a reused receive buffer" if sh else "", detail,
@@ -911,7 +972,8 @@ def c10_part(ctx):
                     a2 = ra_run(ctx, binary, vs, "c10-confirm-all")[idx]
                     b2 = ra_run(ctx, binary, vs, "c10-confirm-all", shared=mode)[idx]
                 if a2 == b2:
-                    raise vlib.InfraError("shared-buffer difference %s did not reproduce" % key)
+                    unreproduced(ctx, tag, key, {"vector": {"h": v["h"]["id"], "opts": [o["id"] for o in v["opts"]]}})
+                    continue
                 ctx.report(key, "router record after RA %s %s depends on the receive buffer being left alone: field %s" %
                            (v["h"]["id"], [o["id"] for o in v["opts"]], f), {"family": "ra", "vector": v, "field": f, "shared": mode})
     nv = len(vecs) + len(vecs2) + len(vecs3)
@@ -965,12 +1027,13 @@ class NdpFamily(Family):
 
 
 NDP_MACS = ["m%d" % i for i in range(1, 7)]
+NDP_EXTRA_LLA = ["lz1", "lx1", "lx2"]       # link-local unicast all the same: zoned, and with non-zero bits after the /10 prefix
 NDP_OTHER_V6 = ["ula1", "unspec6", "loop6", "mc5", "map4", "allnodes"]      # IPv6, but not link-local unicast: ignored targets
 
 
 def ndp_random_script(rng, length):
     macs = rng.sample(NDP_MACS, rng.randint(2, 4))
-    ipof = {m: rng.choice(["l1", "l2", "l3", "l4", "noip", "noip", "g1", "a1"] + NDP_OTHER_V6) for m in macs}
+    ipof = {m: rng.choice(["l1", "l2", "l3", "l4", "noip", "noip", "g1", "a1"] + NDP_EXTRA_LLA + NDP_OTHER_V6) for m in macs}
     routers = rng.sample([("r1", "rm1"), ("r2", "rm2"), ("r3", "rm3")], rng.randint(1, 3))
     out = []
     closed = False
@@ -978,13 +1041,13 @@ def ndp_random_script(rng, length):
         x = rng.random()
         m = rng.choice(macs)
         if x < 0.18:
-            ip = ipof[m] if rng.random() < 0.7 else rng.choice(["l1", "l3", "noip", "g2", "a2"] + NDP_OTHER_V6)
+            ip = ipof[m] if rng.random() < 0.7 else rng.choice(["l1", "l3", "noip", "g2", "a2"] + NDP_EXTRA_LLA + NDP_OTHER_V6)
             if rng.random() < 0.1:
                 out.append({"a": "cstart", "mac": m, "ip": ip, "n": rng.choice([2, 4, 8])})
             else:
                 out.append({"a": "start", "mac": m, "ip": ip})
         elif x < 0.28:
-            ip = ipof[m] if rng.random() < 0.7 else rng.choice(["noip", "g1", "a1", "l2"] + NDP_OTHER_V6)
+            ip = ipof[m] if rng.random() < 0.6 else rng.choice(["noip", "g1", "a1", "l2"] + NDP_EXTRA_LLA + NDP_OTHER_V6)
             out.append({"a": "stop", "mac": rng.choice(macs + [rng.choice(NDP_MACS)]), "ip": ip})
         elif x < 0.62:
             out.append({"a": "step", "k": rng.randint(0, 5)})
@@ -1042,7 +1105,7 @@ def run_c14(ctx):
     bad.sort(key=lambda b: len(b["hist"]))
     behaviours = [("tlc-counterexamples", [b["hist"] for b in bad[:40 if quick else 200]])]
     sim_depth, sim_num = (16, 600) if quick else (24, 3000)
-    hs = simulate(ctx, fam, base, "sim_depth%d" % sim_depth, sim_depth, sim_num, MaxLoops=3, CaptureMACs="{m1, m2}")
+    hs = simulate(ctx, fam, base, "sim_depth%d" % sim_depth, sim_depth, sim_num, MaxLoops=3, CaptureMACs="{m1, m2}", ExtraLLAs="{lz1, lx1, lx2}")
     rng.shuffle(hs)
     behaviours.append(("tlc-walks", hs[:sim_num]))
     n, ln = (300, 60) if quick else (1500, 80)
